@@ -1,0 +1,39 @@
+//go:build verif
+
+package mcap
+
+// Read-only accessors for the verification harness (build tag "verif"). They expose quantities that
+// the memory-bound property constrains but that are not observable through the public API.
+
+// VerifIteratorStats reports, for an index-based message iterator, the number of chunk slots
+// allocated, the slots that still hold unread messages, the total capacity of the slot buffers and
+// the capacity of the compressed-record buffer. ok is false for other iterator types.
+func VerifIteratorStats(it MessageIterator) (slots, liveSlots, slotBytes, recordBufBytes int, ok bool) {
+	ii, isIndexed := it.(*indexedMessageIterator)
+	if !isIndexed {
+		return 0, 0, 0, 0, false
+	}
+	for i := range ii.chunkSlots {
+		slots++
+		if ii.chunkSlots[i].unreadMessages > 0 {
+			liveSlots++
+		}
+		slotBytes += cap(ii.chunkSlots[i].buf)
+	}
+	return slots, liveSlots, slotBytes, cap(ii.recordBuf), true
+}
+
+// VerifUnindexedStats reports, for a sequential message iterator, the capacity of its record buffer
+// and of its lexer's reusable chunk buffer. ok is false for other iterator types.
+func VerifUnindexedStats(it MessageIterator) (recordBufBytes, lexerChunkBufBytes int, ok bool) {
+	ui, isUnindexed := it.(*unindexedMessageIterator)
+	if !isUnindexed {
+		return 0, 0, false
+	}
+	return cap(ui.recordBuf), cap(ui.lexer.uncompressedChunk), true
+}
+
+// VerifLexerChunkBufCap reports the capacity of the lexer's reusable decompression buffer.
+func VerifLexerChunkBufCap(l *Lexer) int {
+	return cap(l.uncompressedChunk)
+}
